@@ -65,8 +65,35 @@ class Slice:
             return
         self.place(b, op[1], frames)
 
+    def upvar(self, b, k):
+        """operand captured as the k-th upvar of closure body `b`, and the body that builds the closure (the enclosing function
+        or one of its other closures: `parent` names the outermost function)"""
+        root = b.f.get("parent")
+        if not root:
+            return None, None
+        me = norm(b.id)
+        for cand in self.prog.bodies.values():
+            if cand.id != root and not cand.id.startswith(root + "::"):
+                continue
+            for i, j, s in cand.all_stmts():
+                if s[0] == "=" and s[2][0] == "agg" and isinstance(s[2][1], dict) and s[2][1].get("k") == "closure" and s[2][1].get("def") and \
+                        norm(s[2][1]["def"]) == me and k < len(s[2][2]):
+                    return cand, s[2][2][k]
+        return None, None
+
     def place(self, b, place, frames):
         self._fields_on(b, place)
+        # a captured variable of a closure: continue in the body that created the closure
+        if b.f["dk"] == "Closure" and place[0] == 1:
+            fs = [x for x in place[1] if isinstance(x, list) and x[0] == "f"]
+            if fs and fs[0][3] == "(closure)":
+                pb, op = self.upvar(b, fs[0][1])
+                if pb is not None:
+                    key = (b.id, "upvar", fs[0][1])
+                    if key not in self.visited:
+                        self.visited.add(key)
+                        self.operand(pb, op, [])
+                    return
         # field-sensitive for tuples: `_t.k` where `_t` is built by one tuple aggregate or returned by a workspace call
         pj = place[1]
         if pj and isinstance(pj[0], list) and pj[0][0] == "f" and pj[0][3] == "(tuple)" and place[0] > b.f["argc"]:
